@@ -142,6 +142,10 @@ Theorem C12_tiled_full_refuses_incomplete : forall ps R C th tw, 1 <= R -> 1 <= 
 Proof. exact tiled_full_refuses_incomplete. Qed.
 Print Assumptions C12_tiled_full_refuses_incomplete.
 
+Theorem C12_tiled_full_code_refines : forall ps th tw, are_tiled_full_code ps th tw = are_tiled_full ps th tw.
+Proof. exact tiled_full_code_refines. Qed.
+Print Assumptions C12_tiled_full_code_refines.
+
 (* ====================================================================== *)
 (* extension: per-frame data of the TILED_FULL organisation                 *)
 (* ====================================================================== *)
